@@ -360,6 +360,9 @@ func RawValues(s *Spec) []any {
 			out = append(out, intReps(n)...)
 		}
 		out = append(out, extremeNumbers()...)
+		// digit strings that other number syntaxes would read differently: leading zeros (octal elsewhere), base
+		// prefixes, digit separators - decimal is the only base
+		out = append(out, "010", "017", "0x10", "0b101", "0o17", "1_000")
 		switch s.Units {
 		case "sec":
 			out = append(out, unitStringsSec...)
